@@ -155,7 +155,16 @@ def run(ctx: Ctx) -> None:
                         v = got[id(p)]
                         if lr_kind != "float" and not isinstance(v, torch.Tensor):
                             ctx.violation("C10:lr-type", "tensor learning rate became a non-tensor", case, str(type(v)))
-                        impl = float(v)
+                        try:
+                            impl = float(v)
+                        except Exception as e:  # noqa: BLE001
+                            ctx.violation("C10:lr-unreadable", "the group's learning rate is not a readable number any more (its device "
+                                          f"or dtype follows the parameter's: {type(e).__name__})", case,
+                                          {"device": str(getattr(v, "device", None)), "dtype": str(getattr(v, "dtype", None))})
+                            continue
+                        if isinstance(v, torch.Tensor) and lr_kind != "float" and \
+                                v.dtype != (torch.float32 if lr_kind == "t32" else torch.float64):
+                            ctx.violation("C10:lr-dtype", "the tensor learning rate changed dtype", case, str(v.dtype))
                         src = src_lr[id(p)]
                         if lr_kind == "t32":
                             src = float(torch.tensor(src, dtype=torch.float32))
